@@ -133,7 +133,10 @@ func runRTInBubble(t *testing.T, sc *RTScenario, ch sim.Chooser) []sim.Ev {
 			return
 		}
 		rpc := it.Payload.(*sim.RPC)
-		tr.AddBuf(1, it.Label, "Sent", "p", e.n(rpc.Peer), "kind", "req", "cls", e.class(rpc), "speaks", e.speaks[e.n(rpc.Peer)], "ts", e.now())
+		// member: the peer is in the routing table at the instant the request leaves (a probe to a member is a
+		// liveness ping, a probe to a non-member an admission probe)
+		member := e.d != nil && e.d.RoutingTable().Find(rpc.Peer) != ""
+		tr.AddBuf(1, it.Label, "Sent", "p", e.n(rpc.Peer), "kind", "req", "cls", e.class(rpc), "speaks", e.speaks[e.n(rpc.Peer)], "member", member, "ts", e.now())
 	}
 	e.gate.OnAbort = func(it *sim.Parked) {
 		why := "canceled"
